@@ -414,8 +414,16 @@ def sign_unsub(ctx, prog):
                      fn=UL)
 
 
+def sign_count(ctx, prog):
+    # the per-node handler count decides whether a changed node is queued for its handlers at all
+    from .c11 import sign_handlers
+    from .engine import run_relabelled
+    run_relabelled(ctx, prog, sign_handlers, "C11.SIGN-handlers", "C09.SIGN-count")
+
+
 for _f, _id in ((dtab_node_update, "C09.DTAB-node-update"), (dtab_run, "C09.DTAB-run"),
-                (wmc_handlers, "C09.WMC-handlers"), (guard_inuse, "C09.GUARD-inuse"), (sign_unsub, "C09.SIGN-unsub")):
+                (wmc_handlers, "C09.WMC-handlers"), (guard_inuse, "C09.GUARD-inuse"), (sign_unsub, "C09.SIGN-unsub"),
+                (sign_count, "C09.SIGN-count")):
     _f.rule_id = _id
 
-RULES = [dtab_node_update, dtab_run, wmc_handlers, guard_inuse, sign_unsub]
+RULES = [dtab_node_update, dtab_run, wmc_handlers, guard_inuse, sign_unsub, sign_count]
